@@ -243,3 +243,15 @@ package mpt
 //@ requires t != nil && t.refcount != nil
 //@ ensures[canon] result2 == nil ==> result0 != nil && canTop(result0)
 //@ ensures[released] ncalls(removeRef) == 1
+
+//@ prop C10
+//@ import hash github.com/nspcc-dev/neo-go/pkg/crypto/hash
+//@ func NewTrie
+//@ ensures result != nil && fresh(result) && result.Store == store && result.mode == mode && result.refcount != nil && len(result.refcount) == 0 && (root != nil ==> result.root == root) && (root == nil ==> is(result.root, EmptyNode))
+
+// Proof verification rebuilds a trie from the proof elements; what keeps a forged element out
+// is that every element is filed under its own double SHA-256 and found again only by hash.
+//@ func VerifyProof
+//@ may-panic
+//@ opt frame off
+//@ call MemCachedStore).Put requires[hashed] len(arg1) == 33 && forall(k, 0, 32, arg1[1+k] == hash.dsha(arg2)[k])
